@@ -204,6 +204,22 @@ def run_property(prop, tier, seed, only=None, quiet=False):
                 say('      witness: ' + ' -> '.join(str(w) for w in o['witness']))
             say('VIOLATION property=%s replay=%s' % (prop, p))
         code = 1
+    if tier == 'thorough' and code == 0 and only is None:
+        import thorough
+        try:
+            ok, msgs = thorough.self_test(ctx)
+        except Exception:
+            ok, msgs = False, ['self-test could not run:\n' + traceback.format_exc()]
+        m, b = ctx.mutants or {}, ctx.benign or {}
+        say('  self-test: seeded changes killed %s/%s (skipped %s, survived %s); behaviour-preserving edit families silent %s/%s' % (
+            m.get('killed'), m.get('total'), m.get('skipped'), m.get('survived'), b.get('silent'), b.get('families')))
+        for r in m.get('results', []):
+            say('    %s: %s %s' % (r['id'], r['outcome'], ','.join(r['rules'])))
+        if not ok:
+            for x in msgs:
+                say('ANALYSIS-BROKEN property=%s: self-test failed: %s' % (prop, x))
+            write_evidence(ctx, t0, known=len(kf), broken='self-test failed: ' + '; '.join(msgs))
+            return 2, ctx
     write_evidence(ctx, t0, violations=len(viol), known=len(kf))
     return code, ctx
 
